@@ -2,7 +2,10 @@
    topic list run through the real BuildClusterMetadata and reconcileBrokerDeployment
    (fake client), with the rendered metadata / StatefulSet fields; (KBucket) a
    name/namespace pair through the real defaultEtcdSnapshotBucket; (KSanitize) a raw
-   string through the real sanitizeBucketName.  strings.TrimSpace and
+   string through the real sanitizeBucketName; (KSeq) a sequence of operator publishes
+   (real BuildClusterMetadata + mergeSnapshots, part of the time the real
+   PublishMetadataSnapshot against embedded etcd) interleaved with broker-side changes of
+   the stored snapshot (real InMemoryStore CreatePartitions / CreateTopic / DeleteTopic).  strings.TrimSpace and
    ToLower(TrimSpace(.)) are oracle tables recorded by the harness for exactly the
    strings the code applies them to. *)
 From KS Require Import lib.Base lib.Strings model.Operator.
@@ -12,7 +15,8 @@ Inductive case :=
 | KMeta (sp : spec) (topics : list topic) (trims : list (bytes * bytes))
         (o_panic : bool) (o_meta : meta) (o_sts : sts)
 | KBucket (name ns : bytes) (trims : list (bytes * bytes)) (lowers : list (bytes * list Z)) (o_bucket : bytes)
-| KSanitize (raw : bytes) (lowers : list (bytes * list Z)) (o_bucket : bytes).
+| KSanitize (raw : bytes) (lowers : list (bytes * list Z)) (o_bucket : bytes)
+| KSeq (evs : list pevent) (o_stored : list meta).   (* the stored snapshot after every event *)
 
 Definition zs_eqb (a b : list Z) : bool := list_eqb Z.eqb a b.
 Definition broker_eqb (a b : broker) : bool :=
@@ -20,7 +24,7 @@ Definition broker_eqb (a b : broker) : bool :=
 Definition part_eqb (a b : part) : bool :=
   (p_id a =? p_id b) && (p_leader a =? p_leader b) && zs_eqb (p_replicas a) (p_replicas b) && zs_eqb (p_isr a) (p_isr b).
 Definition mtopic_eqb (a b : mtopic) : bool :=
-  bytes_eqb (mt_name a) (mt_name b) && list_eqb part_eqb (mt_parts a) (mt_parts b).
+  bytes_eqb (mt_name a) (mt_name b) && (mt_err a =? mt_err b) && list_eqb part_eqb (mt_parts a) (mt_parts b).
 Definition meta_eqb (a b : meta) : bool :=
   list_eqb broker_eqb (m_brokers a) (m_brokers b) && (m_controller a =? m_controller b) &&
   list_eqb mtopic_eqb (m_topics a) (m_topics b) &&
@@ -29,6 +33,14 @@ Definition sts_eqb (a b : sts) : bool :=
   bytes_eqb (sts_name a) (sts_name b) && bytes_eqb (sts_ns a) (sts_ns b) &&
   bytes_eqb (sts_service a) (sts_service b) && (sts_replicas a =? sts_replicas b) &&
   opt_eqb bytes_eqb (sts_env_host a) (sts_env_host b).
+
+(* publish sequences: advertised hosts carry no white space, so TrimSpace = identity *)
+Fixpoint check_seq (m : meta) (evs : list pevent) (os : list meta) : bool :=
+  match evs, os with
+  | [], [] => true
+  | e :: evs', o :: os' => let m' := pstep (fun b => b) true m e in meta_eqb m' o && check_seq m' evs' os'
+  | _, _ => false
+  end.
 
 Definition check_case (k : case) : bool :=
   match k with
@@ -42,4 +54,5 @@ Definition check_case (k : case) : bool :=
       let b := default_bucket (table_bytes trims) (table_runes lowers) name ns in
       bytes_eqb b o && s3_validb b
   | KSanitize raw lowers o => bytes_eqb (sanitize (table_runes lowers) raw) o
+  | KSeq evs os => check_seq meta0 evs os
   end.
